@@ -175,6 +175,15 @@ func c11Run(c *core.Ctx, cf c11cfg, caseID string, stream uint64) {
 	inst := "Pool[" + t.Name + "]"
 	runtime.GOMAXPROCS(cf.Procs)
 	shared := t.PoolAlloc(cf.Alloc)
+	// one read-only source buffer (not a pool buffer) that every goroutine may
+	// append to the buffers it holds
+	var fillSrc dyn.Buf
+	if n := cf.Alloc.Capacity - cf.Alloc.Length; n > 0 && cf.Alloc.Channels > 0 {
+		fillSrc = t.Alloc(signal.Allocator{Channels: cf.Alloc.Channels, Length: min(n, 3), Capacity: min(n, 3) + 1})
+		for i := 0; i < fillSrc.Len(); i++ {
+			fillSrc.SetSample(i, t.FromInt(int64(1+i%7)))
+		}
+	}
 	workers := make([]*c11worker, cf.G)
 	var wg sync.WaitGroup
 	start := make(chan struct{})
@@ -191,7 +200,7 @@ func c11Run(c *core.Ctx, cf c11cfg, caseID string, stream uint64) {
 		go func() {
 			defer wg.Done()
 			<-start
-			c11Worker(w, pool, t, cf, rg, base)
+			c11Worker(w, pool, t, cf, rg, base, fillSrc)
 		}()
 	}
 	close(start)
@@ -330,7 +339,7 @@ func c11Run(c *core.Ctx, cf c11cfg, caseID string, stream uint64) {
 	c.Obs("configurations", 1)
 }
 
-func c11Worker(w *c11worker, pool dyn.Pool, t *dyn.TypeOps, cf c11cfg, r *core.Rand, base time.Time) {
+func c11Worker(w *c11worker, pool dyn.Pool, t *dyn.TypeOps, cf c11cfg, r *core.Rand, base time.Time, fillSrc dyn.Buf) {
 	al := cf.Alloc
 	fail := func(key, msg string) {
 		if len(w.errs) < 5 {
@@ -386,10 +395,20 @@ func c11Worker(w *c11worker, pool dyn.Pool, t *dyn.TypeOps, cf c11cfg, r *core.R
 					}
 				}
 			}
+			// a holder appends the shared, read-only source buffer to the buffer
+			// it just got (it fits the capacity)
+			filled := false
+			if fillSrc != nil && r.Chance(1, 4) {
+				filled = true
+				if p, msg := core.Guard(func() { b.Append(fillSrc) }); p {
+					fail("panic", fmt.Sprintf("goroutine %d cycle %d: appending the shared source buffer to a pooled buffer panicked: %s", w.g, cy, msg))
+				}
+				w.appends++
+			}
 			// a holder of two buffers fills the first up to its capacity and
 			// appends (part of) it to the second, still empty of its own
 			// samples, before using the second: both stay separate buffers
-			if i > 0 && al.Channels*al.Capacity > 0 && al.Length < al.Capacity && r.Chance(1, 3) {
+			if !filled && i > 0 && al.Channels*al.Capacity > 0 && al.Length < al.Capacity && r.Chance(1, 3) {
 				prev := held[i-1]
 				if p, msg := core.Guard(func() {
 					for prev.Len() < prev.Cap() {
